@@ -5,6 +5,8 @@ import Gocc.Model.Scan
 import Gocc.Spec.LexRef
 import Gocc.Spec.Pos
 import Gocc.Spec.Cfg
+import Gocc.Model.Validate
+import Gocc.Proofs.Validate
 /- Grammar-level ops of the model driver: decode a grammar line, run the generator models,
    print tables, scan and parse with them. -/
 namespace Gocc.Driver
@@ -108,6 +110,11 @@ def mkArt (g : Grammar) : Art :=
     match newSymbols (augment g.syn) with
     | .error e => { g := g, lr := some (.error e), dfa := .error e }
     | .ok S0 =>
+      -- `UpdateStringLitTokens` -> `LexProdMap.Add` panics when a string literal is spelled like
+      -- an existing lexical production (or when the same literal is added twice: impossible, the list has no duplicates)
+      if S0.strLits.any (fun l => g.lex.any (·.id == l)) then
+        { g := g, lr := some (.error "Production already exists"), dfa := .error "Production already exists" }
+      else
       let lexProds := lexProdsWithStrLits g.lex S0.strLits
       let lr := genParser g.syn tokIds
       let terms := (S0.addTokens tokIds).terminals
@@ -362,6 +369,17 @@ def opC05 (a : Art) : String :=
         if entry == expected then (acc.1 + 1, acc.2.1 + competing, acc.2.2)
         else (acc.1 + 1, acc.2.1 + competing, acc.2.2 ++ [s!"S{s}/{sym}"])) acc) (0, 0, [])
     if res.2.2.isEmpty then s!"ok entries={res.1} competing={res.2.1}" else s!"bad {" ".intercalate res.2.2}"
+  | some (.error _) => "panic"
+  | none => "nosyntax"
+
+/-- `validate id`: run the verified validator on the tables with the generator's item sets as certificate -/
+def opValidate (a : Art) : String :=
+  match a.lr with
+  | some (.ok r) =>
+    let G := ngrammarOf (augment a.g.syn) r.tables.terminals r.tables.nts
+    let anyRec := r.tables.canRecover.any id
+    let c := certOf r.states
+    s!"safe={if safe G r.tables c && safeEnds r.tables c then 1 else 0} recover={if anyRec then 1 else 0}"
   | some (.error _) => "panic"
   | none => "nosyntax"
 
